@@ -33,7 +33,7 @@ impl Display for Variable {
     fn fmt(&self, f: &mut std::fmt::Formatter<'_>) -> std::fmt::Result {
         match self {
             Variable::Variable(name) => {
-                if name.contains("_") {
+                if crate::utils::needs_variable_escape(name) {
                     //if it's a variable to be escaped
                     write!(f, "\\{}", name)
                 } else {
@@ -49,7 +49,7 @@ impl ToLatex for Variable {
     fn to_latex(&self) -> String {
         match self {
             Variable::Variable(name) => {
-                if name.contains("_") {
+                if crate::utils::needs_variable_escape(name) {
                     let mut indexes = name.split("_").collect::<Vec<&str>>();
                     //sure to have at least one element
                     let first = indexes.remove(0);
